@@ -60,7 +60,9 @@ func newDServer(spec dServerSpec) *dServer {
 		CryptoMethods: toCiphers([]string{"AES"}), Encryption: security.SecurityOptional, Integrity: security.SecurityOptional}
 	d.srv = server.New(base)
 	d.srv.SecurityConfigForCommand = func(cmd int) *security.SecurityConfig {
-		p, ok := spec.pol[cmd]
+		d.mu.Lock()
+		p, ok := d.spec.pol[cmd]
+		d.mu.Unlock()
 		if !ok {
 			return nil
 		}
@@ -68,16 +70,7 @@ func newDServer(spec dServerSpec) *dServer {
 		c.Authentication, c.Encryption, c.Integrity = lv(p.a), lv(p.e), lv(p.i)
 		return &c
 	}
-	if spec.authz != nil {
-		d.srv.Authorizer = func(perm, peer, user string) bool {
-			for _, u := range spec.authz[perm] {
-				if u == "*" || u == user {
-					return true
-				}
-			}
-			return false
-		}
-	}
+	d.setSpec(spec)
 	h := func(ctx context.Context, c *server.Conn) error {
 		d.mu.Lock()
 		inv := invocation{cmd: c.Command, encrypted: c.Stream.IsEncrypted()}
@@ -99,6 +92,28 @@ func newDServer(spec dServerSpec) *dServer {
 		d.srv.HandleRaw(cmd, h)
 	}
 	return d
+}
+
+// setSpec installs the server's current policy table and authorizer (between connections only).
+func (d *dServer) setSpec(spec dServerSpec) {
+	d.mu.Lock()
+	d.spec = spec
+	d.mu.Unlock()
+	if spec.authz == nil {
+		d.srv.Authorizer = nil
+		return
+	}
+	d.srv.Authorizer = func(perm, peer, user string) bool {
+		d.mu.Lock()
+		az := d.spec.authz
+		d.mu.Unlock()
+		for _, u := range az[perm] {
+			if u == "*" || u == user {
+				return true
+			}
+		}
+		return false
+	}
 }
 
 func (s dServerSpec) line() string {
@@ -154,7 +169,7 @@ func ints(l []int) string {
 }
 
 // dConn runs one connection: handshake for `first`, then follow-on command integers.
-func dConn(d *dServer, cl dClient, cache *security.SessionCache, first int, follow []int) (evs string, a, e bool, hsOK, resumed bool, closed bool) {
+func dConn(d *dServer, cl dClient, cache *security.SessionCache, first int, follow []int, explicitSid string) (evs string, a, e bool, hsOK, resumed bool, closed bool, sid string) {
 	ca, cb := bufpipe.Pair("10.0.0.1:1111", "10.0.0.2:9618")
 	ctx, cancel := context.WithTimeout(context.Background(), 800*time.Millisecond)
 	defer cancel()
@@ -165,12 +180,13 @@ func dConn(d *dServer, cl dClient, cache *security.SessionCache, first int, foll
 	go func() { defer close(done); _ = d.srv.ServeConn(ctx, cb) }()
 	cst := stream.NewStream(ca)
 	cc := &security.SecurityConfig{AuthMethods: toMethods(cl.methods), Authentication: lv(cl.auth), CryptoMethods: toCiphers(cl.ciphers),
-		Encryption: lv(cl.enc), Integrity: security.SecurityOptional, Command: first, SessionCache: cache, PeerName: "srvA"}
+		Encryption: lv(cl.enc), Integrity: security.SecurityOptional, Command: first, SessionCache: cache, PeerName: "srvA", SessionID: explicitSid}
 	au := security.NewAuthenticator(cc, cst)
 	neg, err := au.ClientHandshake(ctx)
 	resumed = au.WasSessionResumed()
 	if err == nil {
 		hsOK = true
+		sid = neg.SessionId
 		a, e = neg.Authentication, cst.IsEncrypted()
 		for _, c := range follow {
 			m := message.NewMessageForStream(cst)
@@ -193,7 +209,7 @@ func dConn(d *dServer, cl dClient, cache *security.SessionCache, first int, foll
 	}
 	d.mu.Unlock()
 	parts = append(parts, "closed")
-	return strings.Join(parts, " "), a, e, hsOK, resumed, closed
+	return strings.Join(parts, " "), a, e, hsOK, resumed, closed, sid
 }
 
 func dRaw(d *dServer, cmd int) string {
@@ -222,7 +238,7 @@ func dRaw(d *dServer, cmd int) string {
 }
 
 func runDispatch(c *Ctx) error {
-	c.Res.Rule = "a real server.Server with 4 authenticated commands carrying different per-command policies (optional / auth+enc required / integrity required / auth required) and authorization levels, 1 raw command and an authorizer table that varies between cases; real clients of four kinds (authenticated+encrypted, unauthenticated+encrypted, authenticated+plaintext, neither); every command sequence of length <=3 (quick) / <=4 (thorough) over the command set incl. unknown and raw numbers on one connection with every keep-alive pattern sampled, then reconnect-and-resume with a different command; raw path probed with every command; observable = handlers invoked in order (with the stream's real encryption state and the session's flags at entry) and the connection closed; distinct by (spec, client, sequence); non-trivial = sequence length >=2 or client not fully secured"
+	c.Res.Rule = "a real server.Server with 4 authenticated commands carrying different per-command policies (optional / auth+enc required / integrity required / auth required) and authorization levels, 1 raw command and an authorizer table that varies between cases; real clients of four kinds (authenticated+encrypted, unauthenticated+encrypted, authenticated+plaintext, neither); every command sequence of length <=3 (quick) / <=4 (thorough) over the command set incl. unknown and raw numbers on one connection with every keep-alive pattern sampled, then (optionally after a reconfiguration of the server: another authorizer table, the permissive command raised to authentication REQUIRED) reconnect with a different command, resuming through the client's cache or by naming the session id explicitly; raw path probed with every command; observable = handlers invoked in order (with the stream's real encryption state and the session's flags at entry) and the connection closed; distinct by (spec, client, sequence); non-trivial = sequence length >=2 or client not fully secured"
 	var cases []Case
 	cmds := []int{7, 8, 10, 11, 9, 99} // 9 raw, 99 unknown
 	specs := []dServerSpec{
@@ -281,7 +297,7 @@ func runDispatch(c *Ctx) error {
 				ops = append(ops, spec.line())
 				real = append(real, "ok")
 				first, follow := seq[0], seq[1:]
-				evs, a, e, hsOK, _, closed := dConn(d, cl, cache, first, follow)
+				evs, a, e, hsOK, _, closed, sid := dConn(d, cl, cache, first, follow, "")
 				r := "ok hs-failed"
 				if hsOK {
 					r = fmt.Sprintf("ok a=%s e=%s %s", b01(a), b01(e), evs)
@@ -294,49 +310,76 @@ func runDispatch(c *Ctx) error {
 				d.mu.Lock()
 				log := append([]invocation{}, d.log...)
 				d.mu.Unlock()
-				for _, inv := range log {
-					p, has := spec.pol[inv.cmd]
-					viol := func(k, what string) {
-						c.Violate(Violation{Property: "C05", Key: "C05:" + k, What: what, Ops: append([]string{}, ops...), Expected: "handler not invoked", Observed: fmt.Sprintf("%+v", inv)})
-					}
-					isRaw := false
-					for _, rc := range spec.raw {
-						if rc == inv.cmd {
-							isRaw = true
+				judge := func(sp dServerSpec, log []invocation, sessAuth bool, pre string) {
+					for _, inv := range log {
+						p, has := sp.pol[inv.cmd]
+						viol := func(k, what string) {
+							c.Violate(Violation{Property: "C05", Key: "C05:" + pre + k, What: what, Ops: append([]string{}, ops...), Expected: "handler not invoked", Observed: fmt.Sprintf("%+v", inv)})
 						}
-					}
-					if isRaw {
-						viol("raw-via-auth-path", "a raw handler was reached through the authenticated path")
-					}
-					if has {
-						if p.a == "R" && !a {
-							viol("auth-required-unauthenticated", "a command that mandates authentication ran on a session that is not authenticated")
-						}
-						if (p.e == "R" || p.i == "R") && !inv.encrypted {
-							viol("enc-required-plaintext", "a command that mandates encryption/integrity ran on a plaintext stream")
-						}
-					}
-					if spec.authz != nil {
-						okz := false
-						for _, perm := range spec.perms[inv.cmd] {
-							for _, u := range spec.authz[perm] {
-								if u == "*" || u == inv.user {
-									okz = true
-								}
+						isRaw := false
+						for _, rc := range sp.raw {
+							if rc == inv.cmd {
+								isRaw = true
 							}
 						}
-						if !okz {
-							viol("not-authorized", "a command ran for an identity that is not authorized at any of its levels")
+						if isRaw {
+							viol("raw-via-auth-path", "a raw handler was reached through the authenticated path")
+						}
+						if has {
+							if p.a == "R" && !(sessAuth && inv.auth) {
+								viol("auth-required-unauthenticated", "a command that mandates authentication ran on a session that is not authenticated")
+							}
+							if (p.e == "R" || p.i == "R") && !inv.encrypted {
+								viol("enc-required-plaintext", "a command that mandates encryption/integrity ran on a plaintext stream")
+							}
+						}
+						if sp.authz != nil {
+							okz := false
+							for _, perm := range sp.perms[inv.cmd] {
+								for _, u := range sp.authz[perm] {
+									if u == "*" || u == inv.user {
+										okz = true
+									}
+								}
+							}
+							if !okz {
+								viol("not-authorized", "a command ran for an identity that is not CURRENTLY authorized at any of its levels")
+							}
 						}
 					}
 				}
+				judge(spec, log, a, "")
 				if hsOK && !closed {
 					c.Violate(Violation{Property: "C05", Key: "C05:left-open", What: "the connection was not closed at the end of the dispatch", Ops: ops, Expected: "closed", Observed: "open"})
 				}
-				// reconnect (may resume) with a different command
-				if hsOK && c.Rng.Intn(2) == 0 {
+				// reconnect with a different command: through the client's cache, or by naming the
+				// session explicitly (a client may resume any session it holds for ANY command);
+				// before it, the server's policy function / authorizer may be reconfigured (levels
+				// raised, permissions revoked) — the property speaks of the CURRENT level and
+				// CURRENT authorization.
+				if hsOK && c.Rng.Intn(3) != 0 {
+					now := spec
+					if c.Rng.Intn(2) == 0 {
+						alt := specs[c.Rng.Intn(len(specs))]
+						now = dServerSpec{pol: map[int]dPolicy{}, perms: spec.perms, raw: spec.raw, authz: alt.authz}
+						for k, v := range spec.pol {
+							now.pol[k] = v
+						}
+						if c.Rng.Intn(2) == 0 {
+							now.pol[7] = dPolicy{"R", "O", "O"} // the permissive command now mandates authentication
+						}
+						d.setSpec(now)
+						ops = append(ops, "reconfig"+strings.TrimPrefix(now.line(), "server"))
+						real = append(real, "ok")
+						c.Count("reconfig")
+					}
 					other := pick(c, []int{7, 8, 10, 11})
-					evs2, a2, e2, ok2, resumed, _ := dConn(d, cl, cache, other, nil)
+					ex := ""
+					if e && sid != "" && c.Rng.Intn(2) == 0 { // only a keyed session can be resumed at all (C06)
+						ex = sid
+						c.Count("reconnect-explicit-sid")
+					}
+					evs2, a2, e2, ok2, resumed, _, _ := dConn(d, cl, cache, other, nil, ex)
 					r2 := "ok hs-failed"
 					if ok2 {
 						r2 = fmt.Sprintf("ok a=%s e=%s %s", b01(a2), b01(e2), evs2)
@@ -349,16 +392,12 @@ func runDispatch(c *Ctx) error {
 					d.mu.Lock()
 					log2 := append([]invocation{}, d.log...)
 					d.mu.Unlock()
-					for _, inv := range log2 {
-						if p, has := spec.pol[inv.cmd]; has {
-							if (p.e == "R" || p.i == "R") && !inv.encrypted {
-								c.Violate(Violation{Property: "C05", Key: "C05:resumed-enc-required-plaintext", What: "after reconnect/resume a command mandating encryption ran on a plaintext stream", Ops: ops, Expected: "refused", Observed: fmt.Sprintf("%+v", inv)})
-							}
-							if p.a == "R" && !a2 {
-								c.Violate(Violation{Property: "C05", Key: "C05:resumed-auth-required-unauthenticated", What: "after reconnect/resume a command mandating authentication ran unauthenticated", Ops: ops, Expected: "refused", Observed: fmt.Sprintf("%+v", inv)})
-							}
-						}
+					d.setSpec(spec)
+					sa := a2
+					if resumed {
+						sa = a // a resumed session is exactly as authenticated as the handshake that created it
 					}
+					judge(now, log2, sa, "reconnect:")
 				}
 				c.Distinct(fmt.Sprintf("%d|%d|%v|%v", si, ci, seq, keepL), len(seq) >= 2 || ci != 0)
 				cases = append(cases, Case{Label: fmt.Sprintf("dispatch spec%d client%d %v", si, ci, seq), Ops: ops, Real: real})
